@@ -391,6 +391,8 @@ MISC_THEOREMS = {'misc_mvarray_folds_eq', 'misc_blademap_eq', 'misc_frame_eq'}
 
 QUAT_THEOREMS = {'quat_q2m_eq', 'quat_m2q_eq', 'quat_rotor_eq'}
 
+VALEXP_THEOREMS = {'val_exp_eq'}
+
 SHIP_THEOREMS = {'gac_down_up', 'gac_down_up_model', 'dpga_down_up', 'dpga_down_up_model', 'dg3c_down_up', 'dg3c_down_up_model'}
 
 TRANSLATORS = [   # (script, theorems it generates (None = everything else), modules its output imports)
@@ -407,6 +409,7 @@ TRANSLATORS = [   # (script, theorems it generates (None = everything else), mod
     ('misc2lean.py', MISC_THEOREMS, ['Model', 'Proofs.BladeMapP', 'Proofs.Recip']),
     ('shipped2lean.py', SHIP_THEOREMS, ['Proofs.Shipped']),
     ('quat2lean.py', QUAT_THEOREMS, ['Proofs.Quat']),
+    ('valexp2lean.py', VALEXP_THEOREMS, ['Proofs.GaExp']),
 ]
 
 
